@@ -1,190 +1,566 @@
 package main
 
 // G7 for the local entity (C07, C20): the critical-section facts behind the
-// choice of model member, extracted from spine/entity_local.go and
-// spine/entity.go with go/ast.
+// choice of model member, extracted from the spine package with go/ast.
 //
-//   - the four use-case operations take the package-level useCaseMux first and
-//     release it by defer (member "with the lock", Spine.UC.LSt);
-//   - GetOrAddFeature's creation section is under the entity lock and contains
-//     a second lookup by type and role before NewFeatureLocal (member
-//     recheck = true of Spine.Feat);
-//   - NextFeatureId is one critical section under muxGenerator.
+// The facts are semantic, not textual. Each function of interest is flattened
+// into a trace of events in source order — lock / unlock of a mutex (with the
+// number of the critical section), search of the feature list by type and
+// role, creation of a feature, append to the feature list, copy and store of
+// function data, return — following calls to functions and methods of the same
+// package (on the same receiver, or package-level) up to three levels deep.
+// A deferred unlock takes effect at the end of the frame that registered it; a
+// branch that ends in a return is interpreted on a copy of the lock state, so
+// "unlock before every return" and "defer unlock" are the same thing.
 //
-// An anchor that disappears is reported as a fact with value false plus a
-// note, never silently.
+//   - the four use-case operations: every DataCopy and SetData of an operation
+//     happens inside ONE critical section of a package-level mutex, the same
+//     mutex for all four (member "with the lock", Spine.UC.LSt);
+//   - GetOrAddFeature: the creation (NewFeatureLocal, append to the feature
+//     list) happens under a mutex of the entity, and in that same critical
+//     section, before the creation, the feature list is searched by type AND
+//     role (a loop, slices.IndexFunc/ContainsFunc, or a helper that does so)
+//     with a return in between (member recheck = true of Spine.Feat);
+//   - NextFeatureId: every call it makes happens under a mutex of the entity.
+//
+// A fact that cannot be established is false and a note says why.
 
 import (
 	"fmt"
 	"go/ast"
 	"go/parser"
 	"go/token"
+	"os"
 	"path/filepath"
+	"sort"
 	"strings"
 )
 
 func init() { register("entitylocal", genEntityLocal) }
 
-// lockedFirst: the body starts with `<mux>.Lock()` followed by `defer <mux>.Unlock()`.
-func lockedFirst(fd *ast.FuncDecl, mux string) bool {
-	if fd == nil || fd.Body == nil || len(fd.Body.List) < 2 {
-		return false
-	}
-	s0, ok0 := fd.Body.List[0].(*ast.ExprStmt)
-	s1, ok1 := fd.Body.List[1].(*ast.DeferStmt)
-	if !ok0 || !ok1 {
-		return false
-	}
-	c0, ok := s0.X.(*ast.CallExpr)
-	return ok && exprString(c0.Fun) == mux+".Lock" && exprString(s1.Call.Fun) == mux+".Unlock"
+type elEvent struct {
+	kind   string         // lock unlock search create append copy store yield nextid return call
+	detail string         // mutex expression / callee
+	held   map[string]int // mutex expression -> number of its critical section, for the mutexes held at this point
+	depth  int
 }
 
-// callsOf counts the calls whose function expression renders as name (generic instantiations rendered without brackets).
-func callsOf(n ast.Node, name string) int {
-	c := 0
+type elInterp struct {
+	funcs map[string]*ast.FuncDecl // "Recv.Name" or ".Name"
+	trace []elEvent
+	held  map[string]int
+	epoch map[string]int
+}
+
+func elRecvType(fd *ast.FuncDecl) string {
+	if fd.Recv == nil || len(fd.Recv.List) != 1 {
+		return ""
+	}
+	t := fd.Recv.List[0].Type
+	if st, ok := t.(*ast.StarExpr); ok {
+		t = st.X
+	}
+	if ix, ok := t.(*ast.IndexExpr); ok {
+		t = ix.X
+	}
+	if id, ok := t.(*ast.Ident); ok {
+		return id.Name
+	}
+	return ""
+}
+
+func elRecvName(fd *ast.FuncDecl) string {
+	if fd.Recv == nil || len(fd.Recv.List) != 1 || len(fd.Recv.List[0].Names) != 1 {
+		return ""
+	}
+	return fd.Recv.List[0].Names[0].Name
+}
+
+func (in *elInterp) emit(kind, detail string, depth int) {
+	h := map[string]int{}
+	for k, v := range in.held {
+		h[k] = v
+	}
+	in.trace = append(in.trace, elEvent{kind: kind, detail: detail, held: h, depth: depth})
+}
+
+func (in *elInterp) lock(m string, depth int) {
+	in.epoch[m]++
+	in.held[m] = in.epoch[m]
+	in.emit("lock", m, depth)
+}
+
+func (in *elInterp) unlock(m string, depth int) {
+	delete(in.held, m)
+	in.emit("unlock", m, depth)
+}
+
+func elTerminates(b *ast.BlockStmt) bool {
+	if b == nil || len(b.List) == 0 {
+		return false
+	}
+	switch x := b.List[len(b.List)-1].(type) {
+	case *ast.ReturnStmt:
+		return true
+	case *ast.ExprStmt:
+		if c, ok := x.X.(*ast.CallExpr); ok && exprString(c.Fun) == "panic" {
+			return true
+		}
+	}
+	return false
+}
+
+// elTypeRoleCond: the node compares a .Type() call and a .Role() call for equality, joined by && and without || or !=
+func elTypeRoleCond(n ast.Node) bool {
+	typ, role, and, bad := false, false, false, false
 	ast.Inspect(n, func(x ast.Node) bool {
-		if ce, ok := x.(*ast.CallExpr); ok && exprString(ce.Fun) == name {
-			c++
+		be, ok := x.(*ast.BinaryExpr)
+		if !ok {
+			return true
+		}
+		switch be.Op {
+		case token.LAND:
+			and = true
+		case token.LOR, token.NEQ:
+			bad = true
+		case token.EQL:
+			for _, side := range []ast.Expr{be.X, be.Y} {
+				if c, ok := side.(*ast.CallExpr); ok {
+					if s, ok := c.Fun.(*ast.SelectorExpr); ok && len(c.Args) == 0 {
+						if s.Sel.Name == "Type" {
+							typ = true
+						}
+						if s.Sel.Name == "Role" {
+							role = true
+						}
+					}
+				}
+			}
 		}
 		return true
 	})
-	return c
+	return typ && role && and && !bad
+}
+
+func elMentionsFeatures(e ast.Expr) bool {
+	found := false
+	ast.Inspect(e, func(x ast.Node) bool {
+		if s, ok := x.(*ast.SelectorExpr); ok && s.Sel.Name == "features" {
+			found = true
+		}
+		return true
+	})
+	return found
+}
+
+func (in *elInterp) walkFunc(fd *ast.FuncDecl, depth int) {
+	if fd == nil || fd.Body == nil {
+		return
+	}
+	var defers []string
+	in.walkBlock(fd.Body.List, fd, depth, &defers)
+	for i := len(defers) - 1; i >= 0; i-- {
+		in.unlock(defers[i], depth)
+	}
+}
+
+func (in *elInterp) branch(b *ast.BlockStmt, fd *ast.FuncDecl, depth int, defers *[]string) {
+	if b == nil {
+		return
+	}
+	if elTerminates(b) {
+		saved := map[string]int{}
+		for k, v := range in.held {
+			saved[k] = v
+		}
+		in.walkBlock(b.List, fd, depth, defers)
+		in.held = saved
+		return
+	}
+	in.walkBlock(b.List, fd, depth, defers)
+}
+
+func (in *elInterp) walkBlock(list []ast.Stmt, fd *ast.FuncDecl, depth int, defers *[]string) {
+	for _, st := range list {
+		in.walkStmt(st, fd, depth, defers)
+	}
+}
+
+func elUnlockTarget(c *ast.CallExpr) (string, bool) {
+	if s, ok := c.Fun.(*ast.SelectorExpr); ok && (s.Sel.Name == "Unlock" || s.Sel.Name == "RUnlock") && len(c.Args) == 0 {
+		return exprString(s.X), true
+	}
+	return "", false
+}
+
+func (in *elInterp) walkStmt(st ast.Stmt, fd *ast.FuncDecl, depth int, defers *[]string) {
+	switch x := st.(type) {
+	case nil:
+	case *ast.DeferStmt:
+		if m, ok := elUnlockTarget(x.Call); ok {
+			*defers = append(*defers, m)
+			return
+		}
+		if fl, ok := x.Call.Fun.(*ast.FuncLit); ok {
+			ast.Inspect(fl.Body, func(n ast.Node) bool {
+				if c, ok := n.(*ast.CallExpr); ok {
+					if m, ok := elUnlockTarget(c); ok {
+						*defers = append(*defers, m)
+					}
+				}
+				return true
+			})
+		}
+	case *ast.ExprStmt:
+		in.walkExpr(x.X, fd, depth)
+	case *ast.AssignStmt:
+		for _, r := range x.Rhs {
+			in.walkExpr(r, fd, depth)
+		}
+		for i, l := range x.Lhs {
+			if s, ok := l.(*ast.SelectorExpr); ok && s.Sel.Name == "features" && i < len(x.Rhs) {
+				if c, ok := x.Rhs[i].(*ast.CallExpr); ok && exprString(c.Fun) == "append" {
+					in.emit("append", exprString(l), depth)
+				}
+			}
+		}
+	case *ast.IfStmt:
+		in.walkStmt(x.Init, fd, depth, defers)
+		in.walkExpr(x.Cond, fd, depth)
+		in.branch(x.Body, fd, depth, defers)
+		switch e := x.Else.(type) {
+		case *ast.BlockStmt:
+			in.branch(e, fd, depth, defers)
+		case *ast.IfStmt:
+			in.walkStmt(e, fd, depth, defers)
+		}
+	case *ast.RangeStmt:
+		in.walkExpr(x.X, fd, depth)
+		if elMentionsFeatures(x.X) && elTypeRoleCond(x.Body) {
+			in.emit("search", "range "+exprString(x.X), depth)
+		}
+		in.walkBlock(x.Body.List, fd, depth, defers)
+	case *ast.ForStmt:
+		in.walkStmt(x.Init, fd, depth, defers)
+		if x.Cond != nil {
+			in.walkExpr(x.Cond, fd, depth)
+			if elMentionsFeatures(x.Cond) && elTypeRoleCond(x.Body) {
+				in.emit("search", "for over features", depth)
+			}
+		}
+		in.walkBlock(x.Body.List, fd, depth, defers)
+		in.walkStmt(x.Post, fd, depth, defers)
+	case *ast.SwitchStmt:
+		in.walkStmt(x.Init, fd, depth, defers)
+		if x.Tag != nil {
+			in.walkExpr(x.Tag, fd, depth)
+		}
+		for _, cl := range x.Body.List {
+			cc := cl.(*ast.CaseClause)
+			for _, e := range cc.List {
+				in.walkExpr(e, fd, depth)
+			}
+			in.branch(&ast.BlockStmt{List: cc.Body}, fd, depth, defers)
+		}
+	case *ast.TypeSwitchStmt:
+		for _, cl := range x.Body.List {
+			in.branch(&ast.BlockStmt{List: cl.(*ast.CaseClause).Body}, fd, depth, defers)
+		}
+	case *ast.BlockStmt:
+		in.walkBlock(x.List, fd, depth, defers)
+	case *ast.ReturnStmt:
+		for _, r := range x.Results {
+			in.walkExpr(r, fd, depth)
+		}
+		in.emit("return", "", depth)
+	case *ast.DeclStmt:
+		ast.Inspect(x, func(n ast.Node) bool {
+			if vs, ok := n.(*ast.ValueSpec); ok {
+				for _, v := range vs.Values {
+					in.walkExpr(v, fd, depth)
+				}
+				return false
+			}
+			return true
+		})
+	case *ast.LabeledStmt:
+		in.walkStmt(x.Stmt, fd, depth, defers)
+	case *ast.GoStmt:
+		// another goroutine: not part of this trace
+	default:
+	}
+}
+
+// walkExpr visits the calls of an expression (not the bodies of function literals).
+func (in *elInterp) walkExpr(e ast.Expr, fd *ast.FuncDecl, depth int) {
+	if e == nil {
+		return
+	}
+	ast.Inspect(e, func(n ast.Node) bool {
+		switch c := n.(type) {
+		case *ast.FuncLit:
+			return false
+		case *ast.CallExpr:
+			// arguments first (they are evaluated before the call)
+			for _, a := range c.Args {
+				in.walkExpr(a, fd, depth)
+			}
+			in.call(c, fd, depth)
+			if s, ok := c.Fun.(*ast.SelectorExpr); ok {
+				in.walkExpr(s.X, fd, depth)
+			}
+			return false
+		}
+		return true
+	})
+}
+
+func (in *elInterp) call(c *ast.CallExpr, fd *ast.FuncDecl, depth int) {
+	name := exprString(c.Fun)
+	sel, isSel := c.Fun.(*ast.SelectorExpr)
+	if isSel && len(c.Args) == 0 {
+		switch sel.Sel.Name {
+		case "Lock", "RLock":
+			in.lock(exprString(sel.X), depth)
+			return
+		case "Unlock", "RUnlock":
+			in.unlock(exprString(sel.X), depth)
+			return
+		}
+	}
+	switch {
+	case name == "NewFeatureLocal":
+		in.emit("create", name, depth)
+		return
+	case name == "verifYield":
+		in.emit("yield", "", depth)
+		return
+	case name == "LocalFeatureDataCopyOfType" || (isSel && (sel.Sel.Name == "DataCopy" || sel.Sel.Name == "DataCopyAny")):
+		in.emit("copy", name, depth)
+		return
+	case isSel && sel.Sel.Name == "SetData":
+		in.emit("store", name, depth)
+		return
+	case isSel && sel.Sel.Name == "NextFeatureId":
+		in.emit("nextid", name, depth)
+		return
+	case strings.HasPrefix(name, "slices.") && len(c.Args) >= 2 && elMentionsFeatures(c.Args[0]):
+		if fl, ok := c.Args[1].(*ast.FuncLit); ok && elTypeRoleCond(fl.Body) {
+			in.emit("search", name, depth)
+			return
+		}
+	}
+	in.emit("call", name, depth)
+	if depth >= 3 {
+		return
+	}
+	// follow calls into the same package: package-level functions, and methods called on this frame's receiver
+	var callee *ast.FuncDecl
+	if id, ok := c.Fun.(*ast.Ident); ok {
+		callee = in.funcs["."+id.Name]
+	} else if isSel {
+		if x, ok := sel.X.(*ast.Ident); ok && x.Name == elRecvName(fd) && x.Name != "" {
+			for _, t := range []string{elRecvType(fd), "Entity", "Feature", "Device"} { // the receiver's type, then the embedded bases
+				if f := in.funcs[t+"."+sel.Sel.Name]; f != nil {
+					callee = f
+					break
+				}
+			}
+		}
+	}
+	if callee != nil && callee != fd {
+		in.walkFunc(callee, depth+1)
+	}
+}
+
+func elTrace(funcs map[string]*ast.FuncDecl, key string) []elEvent {
+	in := &elInterp{funcs: funcs, held: map[string]int{}, epoch: map[string]int{}}
+	in.walkFunc(funcs[key], 0)
+	return in.trace
 }
 
 func genEntityLocal(outDir string) (string, error) {
 	fset := token.NewFileSet()
-	f, err := parser.ParseFile(fset, filepath.Join(RepoDir(), "spine", "entity_local.go"), nil, 0)
+	dir := filepath.Join(RepoDir(), "spine")
+	ents, err := os.ReadDir(dir)
 	if err != nil {
 		return "", err
 	}
-	fe, err := parser.ParseFile(fset, filepath.Join(RepoDir(), "spine", "entity.go"), nil, 0)
-	if err != nil {
-		return "", err
+	funcs := map[string]*ast.FuncDecl{}
+	pkgMutex := map[string]bool{} // package-level variables of a sync mutex type
+	for _, e := range ents {
+		n := e.Name()
+		if e.IsDir() || !strings.HasSuffix(n, ".go") || strings.HasSuffix(n, "_test.go") {
+			continue
+		}
+		f, err := parser.ParseFile(fset, filepath.Join(dir, n), nil, 0)
+		if err != nil {
+			return "", err
+		}
+		for _, d := range f.Decls {
+			switch x := d.(type) {
+			case *ast.FuncDecl:
+				key := elRecvType(x) + "." + x.Name.Name
+				if old, ok := funcs[key]; !ok || old.Body == nil || (x.Body != nil && len(x.Body.List) > len(old.Body.List)) {
+					funcs[key] = x
+				}
+			case *ast.GenDecl:
+				if x.Tok != token.VAR {
+					continue
+				}
+				for _, sp := range x.Specs {
+					vs := sp.(*ast.ValueSpec)
+					if vs.Type == nil {
+						continue
+					}
+					if t := exprString(vs.Type); t == "sync.Mutex" || t == "sync.RWMutex" {
+						for _, nm := range vs.Names {
+							pkgMutex[nm.Name] = true
+						}
+					}
+				}
+			}
+		}
 	}
 	var notes []string
 
-	// package-level `var useCaseMux sync.Mutex`: ONE lock for the use-case data of the whole device
-	pkgLevel := false
-	for _, d := range f.Decls {
-		gd, ok := d.(*ast.GenDecl)
-		if !ok || gd.Tok != token.VAR {
-			continue
-		}
-		for _, sp := range gd.Specs {
-			vs := sp.(*ast.ValueSpec)
-			for _, n := range vs.Names {
-				if n.Name == "useCaseMux" && vs.Type != nil && exprString(vs.Type) == "sync.Mutex" {
-					pkgLevel = true
-				}
-			}
-		}
-	}
-	if !pkgLevel {
-		notes = append(notes, "no package-level `var useCaseMux sync.Mutex` in spine/entity_local.go")
-	}
-
-	// the four read-modify-write operations: lock first, unlock only by defer, DataCopy and SetData inside
+	// ---- the four read-modify-write operations
 	ucOps := []string{"AddUseCaseSupport", "SetUseCaseAvailability", "RemoveUseCaseSupport", "RemoveAllUseCaseSupports"}
 	locked := map[string]bool{}
+	lockOf := map[string]string{}
 	for _, name := range ucOps {
-		fd := findFunc(f, "EntityLocal", name)
-		ok := lockedFirst(fd, "useCaseMux")
-		if ok {
-			// no early unlock, exactly one copy and one store in the body
-			if callsOf(fd, "useCaseMux.Unlock") != 1 || callsOf(fd, "LocalFeatureDataCopyOfType") != 1 || callsOf(fd, "nodeMgmt.SetData") != 1 {
-				ok = false
-				notes = append(notes, name+": the locked region does not contain exactly one DataCopy and one SetData, or unlocks early")
+		tr := elTrace(funcs, "EntityLocal."+name)
+		var cs []elEvent
+		for _, e := range tr {
+			if e.kind == "copy" || e.kind == "store" {
+				cs = append(cs, e)
 			}
+		}
+		nCopy, nStore := 0, 0
+		for _, e := range cs {
+			if e.kind == "copy" {
+				nCopy++
+			} else {
+				nStore++
+			}
+		}
+		ok := false
+		if nCopy == 0 || nStore == 0 {
+			notes = append(notes, fmt.Sprintf("%s: no DataCopy / SetData found (copies %d, stores %d)", name, nCopy, nStore))
 		} else {
-			notes = append(notes, name+" does not start with useCaseMux.Lock(); defer useCaseMux.Unlock()")
+			// a package-level mutex held, in one and the same critical section, at every copy and store
+			var cands []string
+			for m, ep := range cs[0].held {
+				if !pkgMutex[m] {
+					continue
+				}
+				same := true
+				for _, e := range cs[1:] {
+					if e.held[m] != ep {
+						same = false
+					}
+				}
+				if same {
+					cands = append(cands, m)
+				}
+			}
+			sort.Strings(cands)
+			if len(cands) > 0 {
+				ok = true
+				lockOf[name] = cands[0]
+			} else {
+				notes = append(notes, name+": its DataCopy and SetData are not inside one critical section of a package-level mutex")
+			}
 		}
 		locked[name] = ok
 	}
-
-	// GetOrAddFeature: r.mux.Lock(); defer r.mux.Unlock(); <second lookup over r.features by type and role>; NewFeatureLocal
-	creationLocked, rechecks := false, false
-	if fd := findFunc(f, "EntityLocal", "GetOrAddFeature"); fd != nil && fd.Body != nil {
-		lockAt, newAt, loopAt := -1, -1, -1
-		for i, st := range fd.Body.List {
-			switch x := st.(type) {
-			case *ast.ExprStmt:
-				if c, ok := x.X.(*ast.CallExpr); ok && exprString(c.Fun) == "r.mux.Lock" && lockAt < 0 {
-					if i+1 < len(fd.Body.List) {
-						if ds, ok := fd.Body.List[i+1].(*ast.DeferStmt); ok && exprString(ds.Call.Fun) == "r.mux.Unlock" {
-							lockAt = i
-						}
-					}
-				}
-			case *ast.RangeStmt:
-				// for _, f := range r.features { if f.Type() == featureType && f.Role() == role { return f } }
-				if exprString(x.X) != "r.features" || loopAt >= 0 {
-					break
-				}
-				found := false
-				ast.Inspect(x.Body, func(n ast.Node) bool {
-					is, ok := n.(*ast.IfStmt)
-					if !ok {
-						return true
-					}
-					var conds []string
-					ast.Inspect(is.Cond, func(m ast.Node) bool {
-						if be, ok := m.(*ast.BinaryExpr); ok && be.Op == token.EQL {
-							conds = append(conds, exprString(be.X)+"=="+exprString(be.Y))
-						}
-						return true
-					})
-					and := false
-					if be, ok := is.Cond.(*ast.BinaryExpr); ok && be.Op == token.LAND {
-						and = true
-					}
-					joined := strings.Join(conds, ";")
-					hasRet := false
-					for _, s := range is.Body.List {
-						if rs, ok := s.(*ast.ReturnStmt); ok && len(rs.Results) == 1 {
-							hasRet = true
-						}
-					}
-					if and && len(conds) == 2 && strings.Contains(joined, ".Type()==featureType") && strings.Contains(joined, ".Role()==role") && hasRet {
-						found = true
-					}
-					return true
-				})
-				if found {
-					loopAt = i
-				}
-			}
-			if callsOf(st, "NewFeatureLocal") > 0 && newAt < 0 {
-				newAt = i
-			}
+	pkgLevel := true
+	for _, name := range ucOps {
+		if !locked[name] || lockOf[name] != lockOf[ucOps[0]] {
+			pkgLevel = false
 		}
-		creationLocked = lockAt >= 0 && newAt > lockAt
-		rechecks = creationLocked && loopAt > lockAt && loopAt < newAt
-		if !creationLocked {
-			notes = append(notes, "GetOrAddFeature: NewFeatureLocal is not preceded by r.mux.Lock(); defer r.mux.Unlock()")
-		}
-		if !rechecks {
-			notes = append(notes, "GetOrAddFeature: no second lookup (range r.features, type && role, return) between the creation lock and NewFeatureLocal")
-		}
-	} else {
-		notes = append(notes, "EntityLocal.GetOrAddFeature not found")
+	}
+	if !pkgLevel {
+		notes = append(notes, fmt.Sprintf("the four use-case operations do not share one package-level mutex (found %v)", lockOf))
 	}
 
-	// NextFeatureId: one critical section under muxGenerator
-	nextLocked := lockedFirst(findFunc(fe, "Entity", "NextFeatureId"), "r.muxGenerator")
-	if !nextLocked {
-		notes = append(notes, "Entity.NextFeatureId does not start with r.muxGenerator.Lock(); defer r.muxGenerator.Unlock()")
+	// ---- GetOrAddFeature
+	creationLocked, rechecks := false, false
+	{
+		tr := elTrace(funcs, "EntityLocal.GetOrAddFeature")
+		createAt, appendAt := -1, -1
+		for i, e := range tr {
+			if e.kind == "create" && createAt < 0 {
+				createAt = i
+			}
+			if e.kind == "append" && appendAt < 0 {
+				appendAt = i
+			}
+		}
+		if createAt < 0 || appendAt < 0 {
+			notes = append(notes, "GetOrAddFeature: no NewFeatureLocal / append to the feature list found")
+		} else {
+			// a mutex of the entity (not package-level) held in one critical section at creation and append
+			for m, ep := range tr[createAt].held {
+				if pkgMutex[m] || tr[appendAt].held[m] != ep {
+					continue
+				}
+				creationLocked = true
+				// a search by type and role in that same critical section, before the creation, with a return in between
+				for i := 0; i < createAt; i++ {
+					if tr[i].kind == "search" && tr[i].held[m] == ep {
+						for j := i + 1; j < createAt; j++ {
+							if tr[j].kind == "return" && tr[j].depth == 0 {
+								rechecks = true
+							}
+						}
+					}
+				}
+			}
+			if !creationLocked {
+				notes = append(notes, "GetOrAddFeature: NewFeatureLocal and the append are not inside one critical section of a mutex of the entity")
+			}
+			if !rechecks {
+				notes = append(notes, "GetOrAddFeature: no search of the feature list by type and role (with a return) between the creation lock and NewFeatureLocal")
+			}
+		}
+	}
+
+	// ---- NextFeatureId
+	nextLocked := false
+	{
+		tr := elTrace(funcs, "Entity.NextFeatureId")
+		calls, unheld := 0, 0
+		for _, e := range tr {
+			if e.kind == "call" {
+				calls++
+				n := 0
+				for m := range e.held {
+					if !pkgMutex[m] {
+						n++
+					}
+				}
+				if n == 0 {
+					unheld++
+				}
+			}
+		}
+		nextLocked = calls > 0 && unheld == 0
+		if !nextLocked {
+			notes = append(notes, fmt.Sprintf("Entity.NextFeatureId: %d of its %d calls happen outside a mutex of the entity", unheld, calls))
+		}
 	}
 
 	var b strings.Builder
-	b.WriteString("/-! GENERATED by go/cmd/translate (generator `entitylocal`) from spine/entity_local.go, spine/entity.go — do not edit. -/\n")
+	b.WriteString("/-! GENERATED by go/cmd/translate (generator `entitylocal`) from the spine package (entity_local.go, entity.go and the helpers they call) — do not edit. -/\n")
 	b.WriteString("namespace Spine.Generated.EntityLocal\n\n")
-	fmt.Fprintf(&b, "/-- `var useCaseMux sync.Mutex` at package level: one lock for the use-case data of the whole device -/\ndef useCaseMuxPackageLevel : Bool := %v\n\n", pkgLevel)
+	fmt.Fprintf(&b, "/-- the four use-case operations hold one and the same package-level mutex (%s): one lock for the use-case data of the whole device -/\ndef useCaseMuxPackageLevel : Bool := %v\n\n", lockOf[ucOps[0]], pkgLevel)
 	for _, name := range ucOps {
-		fmt.Fprintf(&b, "/-- %s starts with useCaseMux.Lock(); defer useCaseMux.Unlock(), never unlocks early, and its one DataCopy and one SetData are inside -/\ndef locked%s : Bool := %v\n\n", name, name, locked[name])
+		fmt.Fprintf(&b, "/-- %s: every DataCopy and SetData it performs (directly or through helpers) lies inside one critical section of a package-level mutex -/\ndef locked%s : Bool := %v\n\n", name, name, locked[name])
 	}
-	fmt.Fprintf(&b, "/-- GetOrAddFeature: r.mux.Lock(); defer r.mux.Unlock() precede NewFeatureLocal and the append -/\ndef getOrAddCreationLocked : Bool := %v\n\n", creationLocked)
-	fmt.Fprintf(&b, "/-- GetOrAddFeature: between the creation lock and NewFeatureLocal the features are searched again by type and role, returning a match -/\ndef getOrAddRechecks : Bool := %v\n\n", rechecks)
-	fmt.Fprintf(&b, "/-- Entity.NextFeatureId is one critical section under muxGenerator -/\ndef nextFeatureIdLocked : Bool := %v\n\n", nextLocked)
+	fmt.Fprintf(&b, "/-- GetOrAddFeature: NewFeatureLocal and the append to the feature list lie inside one critical section of a mutex of the entity -/\ndef getOrAddCreationLocked : Bool := %v\n\n", creationLocked)
+	fmt.Fprintf(&b, "/-- GetOrAddFeature: in that critical section, before the creation, the feature list is searched by type and role and a match is returned -/\ndef getOrAddRechecks : Bool := %v\n\n", rechecks)
+	fmt.Fprintf(&b, "/-- Entity.NextFeatureId: everything it calls happens under a mutex of the entity -/\ndef nextFeatureIdLocked : Bool := %v\n\n", nextLocked)
 	for _, n := range notes {
 		fmt.Fprintf(&b, "-- note: %s\n", n)
 	}
